@@ -299,9 +299,11 @@ def result_of(res, form):
         return {"k": "ask", "v": bool(res.askAnswer)}
     if form == "construct":
         return {"k": "construct", "triples": [[abst(x) for x in t] for t in res.graph]}
+    rows = [{str(k): abst(v) for k, v in b.items() if v is not None} for b in res.bindings]
+    # the same answer through the iteration protocol (for row in result) and len(): one row per solution
     return {"k": "select", "vars": [str(v) for v in (res.vars or [])],
             # a variable mapped to None is unbound
-            "rows": [{str(k): abst(v) for k, v in b.items() if v is not None} for b in res.bindings]}
+            "rows": rows, "iter_n": sum(1 for _ in res), "len_n": len(res)}
 
 
 def _rename_iris(x, ns):
